@@ -302,14 +302,14 @@ pub fn gen_death2(r: &mut Rng, frames: i32) -> Scn {
 
 /// Events of a node in a canonical order for differential comparisons: grouped per remote address
 /// (the interleaving of different addresses within one poll follows HashMap iteration order and is
-/// unspecified), lifecycle events in their original order, DesyncDetected events of one address
-/// ordered by frame (several of them raised by one call come in the iteration order of a HashMap).
+/// unspecified), the events of one address in their original order.
 pub fn canon_events(n: &Node) -> Vec<(u64, Ev)> {
     let mut v = n.events.clone();
-    v.sort_by_key(|(t, e)| match e {
-        Ev::Desync { addr, frame, .. } => (Some(*addr), 1u8, *t, *frame),
-        Ev::Wait { .. } => (None, 0, 0, 0),
-        other => (other.addr(), 0, 0, 0),
+    // (stable sort: the events of one address keep the order in which the session raised them, DesyncDetected included
+    // since repair F9)
+    v.sort_by_key(|(_, e)| match e {
+        Ev::Wait { .. } => None,
+        other => other.addr(),
     });
     v
 }
